@@ -3,6 +3,7 @@ C16 — Message handles are single-use and respect their category.
 Model: `Worker.Handle` (message.py) and `Worker.DepState` (message_dependency.py).
 -/
 import RepidModel.Worker.Processor
+import RepidModel.Pred.Worker
 
 namespace Repid.C16
 open Repid Worker Mem
@@ -83,10 +84,16 @@ theorem refusals_keep_handle (h : Handle) (p : Params) (now : Int) (cron : Strin
 
 /-! ### callbacks after an eager response -/
 
+/-- user callbacks in registration order (same function as `Pred.C16.users`) -/
 def userCbs : List Pre → List Cb
   | [] => []
   | .addCallback i r :: rest => .user i r :: userCbs rest
   | _ :: rest => userCbs rest
+
+theorem userCbs_eq_users (pre : List Pre) : userCbs pre = Pred.C16.users pre := by
+  induction pre with
+  | nil => rfl
+  | cons x rest ih => cases x <;> simp [userCbs, Pred.C16.users, ih]
 
 def isUser : Cb → Bool
   | .user _ _ => true
@@ -160,6 +167,118 @@ theorem callback_order (hrp hb : Bool) (pre : List Pre) (d : DepState)
 theorem store_position (d : DepState) (i : Nat) (s : Bool) (hl : d.lazy = some (i, s)) :
     d.finalCallbacks = d.callbacks.take i ++ [.store s] ++ d.callbacks.drop i := by
   simp [DepState.finalCallbacks, hl]
+
+open Pred.C16 in
+/-- state after folding the declarations: the callback list grows by the user callbacks, the lazy
+    store position is the callback count at the moment of the LAST set_* call -/
+theorem foldPre_state (hrp hb : Bool) (pre : List Pre) (d d' : DepState)
+    (h : foldPre d hrp hb pre = .ok d') :
+    d'.callbacks = d.callbacks ++ users pre ∧
+    d'.lazy = (match lastSet pre with
+               | none => d.lazy
+               | some (i, s) => some (d.callbacks.length + (users (pre.take i)).length, s)) := by
+  induction pre generalizing d with
+  | nil => simp [foldPre] at h; subst h; simp [users, lastSet]
+  | cons x rest ih =>
+    simp only [foldPre] at h
+    cases hx : d.pre hrp hb x with
+    | error e => simp [hx] at h
+    | ok d1 =>
+      simp only [hx] at h
+      obtain ⟨h1, h2⟩ := ih d1 h
+      cases x with
+      | addCallback i r =>
+        simp [DepState.pre] at hx; subst hx
+        refine ⟨by simp [h1, users], ?_⟩
+        rw [h2]
+        simp only [lastSet, isSet, Option.map_none]
+        cases lastSet rest with
+        | none => simp
+        | some is => simp [users, List.take_succ_cons]; omega
+      | setResult =>
+        cases hrp <;> cases hb <;> simp [DepState.pre] at hx
+        subst hx
+        refine ⟨by simpa [users] using h1, ?_⟩
+        rw [h2]
+        simp only [lastSet, isSet, Option.map_some]
+        cases lastSet rest with
+        | none => simp [users]
+        | some is => simp [users, List.take_succ_cons]
+      | setException =>
+        cases hrp <;> cases hb <;> simp [DepState.pre] at hx
+        subst hx
+        refine ⟨by simpa [users] using h1, ?_⟩
+        rw [h2]
+        simp only [lastSet, isSet, Option.map_some]
+        cases lastSet rest with
+        | none => simp [users]
+        | some is => simp [users, List.take_succ_cons]
+
+open Pred.C16 in
+theorem users_append (a b : List Pre) : users (a ++ b) = users a ++ users b := by
+  induction a with
+  | nil => rfl
+  | cons x rest ih => cases x <;> simp [users, ih]
+
+open Pred.C16 in
+/-- the element at the position reported by `lastSet` is a set_* call -/
+theorem lastSet_spec (pre : List Pre) (i : Nat) (s : Bool) (h : lastSet pre = some (i, s)) :
+    ∃ x, pre[i]? = some x ∧ isSet x = some s := by
+  induction pre generalizing i with
+  | nil => simp [lastSet] at h
+  | cons y rest ih =>
+    simp only [lastSet] at h
+    cases hl : lastSet rest with
+    | some js =>
+      simp [hl] at h
+      obtain ⟨hi, hs⟩ := h
+      subst hi; subst hs
+      obtain ⟨x, hx, hxs⟩ := ih js.1 (by rw [hl])
+      exact ⟨x, by simpa using hx, hxs⟩
+    | none =>
+      rw [hl] at h
+      cases hy : isSet y with
+      | none => simp [hy] at h
+      | some s' =>
+        simp [hy] at h
+        obtain ⟨hi, hss⟩ := h
+        subst hi; subst hss
+        exact ⟨y, by simp, hy⟩
+
+open Pred.C16 in
+/-- **`callback_order`, full statement**: after any sequence of set_result / set_exception /
+    add_callback calls, the callbacks executed after the eager response are exactly the SPEC order:
+    the registered callbacks in registration order, with the result store in the place of the latest
+    set_result / set_exception call. -/
+theorem final_eq_spec (hrp hb : Bool) (pre : List Pre) (d : DepState)
+    (h : foldPre {} hrp hb pre = .ok d) : d.finalCallbacks = specOrder pre := by
+  obtain ⟨h1, h2⟩ := foldPre_state hrp hb pre {} d h
+  simp only [List.nil_append, List.length_nil, Nat.zero_add] at h1 h2
+  unfold DepState.finalCallbacks specOrder
+  cases hl : lastSet pre with
+  | none => simp [hl] at h2; simp [h2, h1]
+  | some is =>
+    obtain ⟨i, s⟩ := is
+    simp only [hl] at h2
+    simp only [h2, h1]
+    obtain ⟨x, hx, hxs⟩ := lastSet_spec pre i s hl
+    have hsplit : pre = pre.take i ++ x :: pre.drop (i + 1) := by
+      have hi : i < pre.length := by
+        rcases Nat.lt_or_ge i pre.length with h | h
+        · exact h
+        · simp [List.getElem?_eq_none h] at hx
+      have hxe : pre[i] = x := by
+        have := List.getElem?_eq_getElem hi
+        rw [this] at hx; injection hx
+      rw [← hxe]
+      exact (List.take_append_drop i pre).symm.trans (by rw [List.drop_eq_getElem_cons hi])
+    have hux : users (x :: pre.drop (i + 1)) = users (pre.drop (i + 1)) := by
+      cases x <;> simp [users, isSet] at hxs ⊢
+    have hu : users pre = users (pre.take i) ++ users (pre.drop (i + 1)) := by
+      conv => lhs; rw [hsplit]
+      rw [users_append, hux]
+    rw [hu]
+    simp [List.take_append_of_le_length, List.drop_append_of_le_length]
 
 /-- `body_stops`: an accepted eager response ends the actor run with "reporting done" — the rest of
     the body does not run and the worker makes no further broker call. -/
